@@ -25,7 +25,7 @@ func init() {
 		ID:    "C15",
 		Title: "Message queues: FIFO, exactly once, no lost wake-up; priority by counter",
 		Explanation: "Decides, from the type-checked SSA of the generic bodies of queue.SimpleQueue and queue.PriorityQueue (every function of the package that touches their fields), shapes that hold or fail for every interleaving at once. " +
-			"SimpleQueue: (D1) items enter the list at one end and leave from the other (PushBack vs Front+Remove, or the mirror image), every removed element is the head element read in the same critical section and its value is what the function returns, every head value that is returned is removed on every path (exactly once), and every list operation runs with the queue mutex held; " +
+			"SimpleQueue: (D1) items enter the list at one end and leave from the other (PushBack vs Front+Remove, or the mirror image), every removed element is the head element read in the same critical section and its value is what the function returns, every head value that is returned is removed on every path (exactly once), and every list operation runs with the queue mutex held - code that sits in an unexported helper of the package is checked in the helper's body once per exported function through which it is reached, with the locks held on that function's call chains (a helper called with the mutex held is as good as inline code; the helper's result must be passed on to the exported function's return), so extracting or merging helpers neither hides a site nor lowers the obligation count; " +
 			"(D2) the wake-up channel is not of the losing shape 'capacity 0 + non-blocking send + receive performed after the mutex was released' (a send falling between the waiter's unlock and its receive is dropped); every receive that takes a token off the wake-up channel (the blocking wait, a non-blocking drain, in the waiter or in a helper on its path) is followed, before the consumer can block on the channel again, by a fresh emptiness test made with the mutex held - unless it was made with the mutex held on the empty side of such a test in the same critical section (the token is then provably stale) - because a token taken after the mutex was released may belong to an item that has not been seen; and an exported function never reaches its blocking wait from the entry without such a test; " +
 			"(D3) after every wake-up the waiter re-observes emptiness (Len, or a nil-tested Front/Back) before any removal; " +
 			"(D4) every insertion is followed on every path by a wake-up send, or preceded by one inside the same uninterrupted critical section; " +
@@ -209,10 +209,60 @@ func c15LockClasses(n *types.Named) []string {
 }
 
 func (e *c15Env) holds(in ssa.Instruction, classes []string, mode byte) bool {
-	return e.holdsDepth(in, classes, mode, 0)
+	return e.holdsDepth(in, classes, mode, 0, nil)
 }
 
-func (e *c15Env) holdsDepth(in ssa.Instruction, classes []string, mode byte, depth int) bool {
+// holdsFor: like holds, but only the call chains that start in the exported function root
+// are considered for an unexported helper.
+func (e *c15Env) holdsFor(in ssa.Instruction, classes []string, mode byte, root *ssa.Function) bool {
+	return e.holdsDepth(in, classes, mode, 0, root)
+}
+
+// rootsOf: the exported functions (or functions without a caller in the package) through
+// which fn is reached inside the package; fn itself when it is one.
+func (e *c15Env) rootsOf(fn *ssa.Function) []*ssa.Function {
+	seen := map[*ssa.Function]bool{}
+	var out []*ssa.Function
+	var visit func(f *ssa.Function, depth int)
+	visit = func(f *ssa.Function, depth int) {
+		if seen[f] {
+			return
+		}
+		seen[f] = true
+		obj := f.Object()
+		sites := e.callSitesOf(f)
+		if depth >= 4 || f.Parent() != nil || (obj != nil && obj.Exported()) || len(sites) == 0 {
+			out = append(out, f)
+			return
+		}
+		for _, cs := range sites {
+			visit(cs.Parent(), depth+1)
+		}
+	}
+	visit(fn, 0)
+	sort.Slice(out, func(i, j int) bool { return fnName(out[i]) < fnName(out[j]) })
+	return out
+}
+
+func (e *c15Env) reachedFrom(fn, root *ssa.Function) bool {
+	for _, r := range e.rootsOf(fn) {
+		if r == root {
+			return true
+		}
+	}
+	return false
+}
+
+// c15Label: construct of an obligation that lives in fn and is owed by the exported function
+// root (the same thing when the code sits in the exported function itself).
+func c15Label(root, fn *ssa.Function, suffix string) string {
+	if root == fn || root == nil {
+		return fnName(fn) + suffix
+	}
+	return fnName(root) + suffix + " (in helper " + fn.Name() + ")"
+}
+
+func (e *c15Env) holdsDepth(in ssa.Instruction, classes []string, mode byte, depth int, root *ssa.Function) bool {
 	ls := e.li.heldAt(in)
 	for _, cl := range classes {
 		if ls.holds(cl, mode) {
@@ -247,16 +297,20 @@ func (e *c15Env) holdsDepth(in ssa.Instruction, classes []string, mode byte, dep
 	if released {
 		return false
 	}
-	sites := e.callSitesOf(fn)
-	for _, x := range sites {
+	n := 0
+	for _, x := range e.callSitesOf(fn) {
+		if root != nil && !e.reachedFrom(x.Parent(), root) {
+			continue
+		}
+		n++
 		if _, isCall := x.(*ssa.Call); !isCall {
 			return false // go / defer: runs outside the caller's critical section
 		}
-		if !e.holdsDepth(x, classes, mode, depth+1) {
+		if !e.holdsDepth(x, classes, mode, depth+1, root) {
 			return false
 		}
 	}
-	return len(sites) > 0
+	return n > 0
 }
 
 // ---------------------------------------------------------------------------
@@ -734,13 +788,15 @@ func (s *c15Simple) ruleOrder() {
 		majority = "back"
 	}
 	for _, st := range sites {
-		construct := fnName(st.op.fn) + "+list." + st.op.method
-		if st.head == majority {
-			c.ok("D1", construct, posOf(st.op.in), "%s; consistent with the other sites (oldest item at the %s)", st.what, majority)
-		} else if majority == "" {
-			c.fail("D1", construct, posOf(st.op.in), "%s, but insertions and removals do not agree on which end holds the oldest item: items are not handed out in insertion order", st.what)
-		} else {
-			c.fail("D1", construct, posOf(st.op.in), "%s while the other sites keep the oldest item at the %s: items are handed out in LIFO, not insertion, order", st.what, majority)
+		for _, root := range s.e.rootsOf(st.op.fn) {
+			construct := c15Label(root, st.op.fn, "+list."+st.op.method)
+			if st.head == majority {
+				c.ok("D1", construct, posOf(st.op.in), "%s; consistent with the other sites (oldest item at the %s)", st.what, majority)
+			} else if majority == "" {
+				c.fail("D1", construct, posOf(st.op.in), "%s, but insertions and removals do not agree on which end holds the oldest item: items are not handed out in insertion order", st.what)
+			} else {
+				c.fail("D1", construct, posOf(st.op.in), "%s while the other sites keep the oldest item at the %s: items are handed out in LIFO, not insertion, order", st.what, majority)
+			}
 		}
 	}
 }
@@ -778,31 +834,35 @@ func (s *c15Simple) rulePairing() {
 		if head == nil {
 			continue // reported by the order rule
 		}
-		construct := fnName(op.fn) + "+removed element"
-		// same critical section between reading the head and removing it
-		var gap ssa.Instruction
-		if !s.e.holds(head, s.locks, 'W') || !s.e.holds(op.in, s.locks, 'W') {
-			gap = op.in
-		}
-		for _, in := range c15Between(head, op.in) {
-			if !s.e.holds(in, s.locks, 'W') {
-				gap = in
-				break
-			}
-		}
 		// the removed element's value is what is returned
 		seeds := s.valueReadsOf(args[1])
 		if v := op.in.Value(); v != nil {
 			seeds = append(seeds, v) // Remove returns the element's value
 		}
 		rets, _ := c15FlowsForward(seeds...)
-		switch {
-		case gap != nil:
-			c.fail("D1", construct, posOf(gap), "the queue mutex is not held continuously between reading the head element and removing it: another goroutine can remove the same element (item delivered twice) in between")
-		case len(rets) == 0:
-			c.fail("D1", construct, posOf(op.in), "the value of the removed element does not reach a result of the function: the item is taken out of the queue and lost")
-		default:
-			c.ok("D1", construct, posOf(op.in), "removes the head element read in the same critical section and returns its value")
+		for _, root := range s.e.rootsOf(op.fn) {
+			construct := c15Label(root, op.fn, "+removed element")
+			// same critical section between reading the head and removing it
+			var gap ssa.Instruction
+			if !s.e.holdsFor(head, s.locks, 'W', root) || !s.e.holdsFor(op.in, s.locks, 'W', root) {
+				gap = op.in
+			}
+			for _, in := range c15Between(head, op.in) {
+				if !s.e.holdsFor(in, s.locks, 'W', root) {
+					gap = in
+					break
+				}
+			}
+			switch {
+			case gap != nil:
+				c.fail("D1", construct, posOf(gap), "the queue mutex is not held continuously between reading the head element and removing it: another goroutine can remove the same element (item delivered twice) in between")
+			case len(rets) == 0:
+				c.fail("D1", construct, posOf(op.in), "the value of the removed element does not reach a result of the function: the item is taken out of the queue and lost")
+			case !s.resultReachesRoot(op.fn, root, 0):
+				c.fail("D1", construct, posOf(op.in), "the helper returns the removed item but %s does not return the helper's result on to its caller: the item is taken out of the queue and lost", fnName(root))
+			default:
+				c.ok("D1", construct, posOf(op.in), "removes the head element read in the same critical section and returns its value")
+			}
 		}
 	}
 	// every head value that is returned is removed on every path
@@ -819,19 +879,21 @@ func (s *c15Simple) rulePairing() {
 		if len(rets) == 0 {
 			continue
 		}
-		construct := fnName(op.fn) + "+returned head item"
 		removes := map[ssa.Instruction]bool{}
 		for _, o2 := range s.byFn[op.fn] {
 			if o2.method == "Remove" && len(o2.in.Common().Args) > 1 && o2.in.Common().Args[1] == ssa.Value(el) {
 				removes[o2.in] = true
 			}
 		}
+		msg := ""
+		var at ssa.Instruction = op.in
 		if len(removes) == 0 {
-			c.fail("D1", construct, posOf(op.in), "the value of the head element is returned but the element is never removed from the list: the same item is handed out again by the next call")
-			continue
+			msg = "the value of the head element is returned but the element is never removed from the list: the same item is handed out again by the next call"
 		}
-		bad := false
 		for _, rd := range reads {
+			if msg != "" {
+				break
+			}
 			rdIn := rd.(ssa.Instruction)
 			dominated := false
 			for rm := range removes {
@@ -847,18 +909,50 @@ func (s *c15Simple) rulePairing() {
 				retSet[r] = true
 			}
 			if esc := c15After(rdIn, retSet, removes); esc != nil {
-				c.fail("D1", construct, posOf(esc), "a path returns the head item without removing its element from the list: the item is handed out more than once")
-				bad = true
-				break
+				msg, at = "a path returns the head item without removing its element from the list: the item is handed out more than once", esc
 			}
 		}
-		if !bad {
-			c.ok("D1", construct, posOf(op.in), "the element whose value is returned is removed on every path to the return")
+		for _, root := range s.e.rootsOf(op.fn) {
+			construct := c15Label(root, op.fn, "+returned head item")
+			if msg != "" {
+				c.fail("D1", construct, posOf(at), "%s", msg)
+			} else {
+				c.ok("D1", construct, posOf(op.in), "the element whose value is returned is removed on every path to the return")
+			}
 		}
 	}
 }
 
-// D1 (lock): every list operation of a function runs with the queue mutex held.
+// resultReachesRoot: the results of helper fn are passed on, call by call, to a return of the
+// exported function root.
+func (s *c15Simple) resultReachesRoot(fn, root *ssa.Function, depth int) bool {
+	if fn == root {
+		return true
+	}
+	if depth > 3 {
+		return false
+	}
+	n := 0
+	for _, cs := range s.e.callSitesOf(fn) {
+		g := cs.Parent()
+		if !s.e.reachedFrom(g, root) {
+			continue
+		}
+		n++
+		v, ok := cs.(ssa.Value)
+		if !ok {
+			return false
+		}
+		rets, _ := c15FlowsForward(v)
+		if len(rets) == 0 || !s.resultReachesRoot(g, root, depth+1) {
+			return false
+		}
+	}
+	return n > 0
+}
+
+// D1 (lock): every list operation runs with the queue mutex held; for an unexported helper,
+// once per exported function through which it is reached, with that function's lock context.
 func (s *c15Simple) ruleLock() {
 	c := s.e.c
 	var fns []*ssa.Function
@@ -867,18 +961,20 @@ func (s *c15Simple) ruleLock() {
 	}
 	sort.Slice(fns, func(i, j int) bool { return fnName(fns[i]) < fnName(fns[j]) })
 	for _, fn := range fns {
-		construct := fnName(fn) + "+list access under the queue mutex"
-		var bad *c15ListOp
-		for i, op := range s.byFn[fn] {
-			if !s.e.holds(op.in, s.locks, 'W') {
-				bad = &s.byFn[fn][i]
-				break
+		for _, root := range s.e.rootsOf(fn) {
+			construct := c15Label(root, fn, "+list access under the queue mutex")
+			var bad *c15ListOp
+			for i, op := range s.byFn[fn] {
+				if !s.e.holdsFor(op.in, s.locks, 'W', root) {
+					bad = &s.byFn[fn][i]
+					break
+				}
 			}
-		}
-		if bad != nil {
-			c.fail("D1", construct, posOf(bad.in), "list.%s is called without the queue mutex (%s) held on every path: concurrent producers/consumer corrupt the list, lose or duplicate items", bad.method, strings.Join(s.locks, "/"))
-		} else {
-			c.ok("D1", construct, fn.Pos(), "%d list operation(s), all with %s held", len(s.byFn[fn]), strings.Join(s.locks, "/"))
+			if bad != nil {
+				c.fail("D1", construct, posOf(bad.in), "list.%s is called without the queue mutex (%s) held on every path: concurrent producers/consumer corrupt the list, lose or duplicate items", bad.method, strings.Join(s.locks, "/"))
+			} else {
+				c.ok("D1", construct, fn.Pos(), "%d list operation(s), all with %s held", len(s.byFn[fn]), strings.Join(s.locks, "/"))
+			}
 		}
 	}
 }
@@ -1070,6 +1166,44 @@ func (s *c15Simple) liftWait(in ssa.Instruction, depth int) []ssa.Instruction {
 	if obj := fn.Object(); depth < 2 && fn.Parent() == nil && (obj == nil || !obj.Exported()) {
 		for _, cs := range s.e.callSitesOf(fn) {
 			out = append(out, s.liftWait(cs, depth+1)...)
+		}
+	}
+	return out
+}
+
+// deliveryTargets: the instructions of fn that take an item out of the list: Remove sites and
+// calls of package functions that (transitively) contain one, guarded or not.
+func (s *c15Simple) deliveryTargets(fn *ssa.Function) map[ssa.Instruction]bool {
+	out := map[ssa.Instruction]bool{}
+	for _, op := range s.byFn[fn] {
+		if op.method == "Remove" {
+			out[op.in] = true
+		}
+	}
+	var removes func(g *ssa.Function, depth int) bool
+	removes = func(g *ssa.Function, depth int) bool {
+		for _, op := range s.byFn[g] {
+			if op.method == "Remove" {
+				return true
+			}
+		}
+		if depth > 3 {
+			return false
+		}
+		for _, b := range g.Blocks {
+			for _, in := range b.Instrs {
+				if h := s.pkgCallee(in); h != nil && h != g && removes(h, depth+1) {
+					return true
+				}
+			}
+		}
+		return false
+	}
+	for _, b := range fn.Blocks {
+		for _, in := range b.Instrs {
+			if g := s.pkgCallee(in); g != nil && g != fn && removes(g, 1) {
+				out[in] = true
+			}
 		}
 	}
 	return out
@@ -1301,7 +1435,7 @@ func (s *c15Simple) cancelAt(site ssa.Instruction, direct bool, doneEdges []edge
 	for k := range tests {
 		stop[k] = true
 	}
-	for k := range s.removalTargets(fn, 0) {
+	for k := range s.deliveryTargets(fn) {
 		stop[k] = true
 	}
 	rets := map[*ssa.Return]bool{}
@@ -1355,7 +1489,7 @@ func (s *c15Simple) cancelAt(site ssa.Instruction, direct bool, doneEdges []edge
 func (s *c15Simple) cancelBeforeDelivery(site ssa.Instruction, tests map[ssa.Instruction]bool, cancelled []edge) {
 	c := s.e.c
 	fn := site.Parent()
-	removals := s.removalTargets(fn, 0)
+	removals := s.deliveryTargets(fn)
 	if obj := fn.Object(); len(removals) == 0 && (obj == nil || !obj.Exported()) {
 		return // helper that only parks: items are handed out by its callers
 	}
